@@ -177,6 +177,11 @@ func operators(hp *honestPair, ids []sharing.ID, d sharing.ID, k msgKind, to sha
 
 // ---------------------------------------------------------------------------------------------------------------
 
+var (
+	histMu    sync.Mutex
+	faultHist = map[string]int{}
+)
+
 func role(id, d sharing.ID, affected map[sharing.ID]bool) string {
 	switch {
 	case id == d:
@@ -189,7 +194,11 @@ func role(id, d sharing.ID, affected map[sharing.ID]bool) string {
 
 func faultBody(x *engine.X) {
 	n, a, ids := chooseQuorum(x)
-	seed := engine.Seed() * 1000
+	nSeeds := 1
+	if engine.Thorough() {
+		nSeeds = 2
+	}
+	seed := engine.Seed()*1000 + int64(x.Choose("seed", nSeeds))
 	hp := honestWires(a, ids, seed)
 
 	d := ids[x.Choose("deviator", n)]
@@ -240,7 +249,7 @@ func faultBody(x *engine.X) {
 		what += " (same for all recipients)"
 	}
 	what += " by " + op.name
-	x.Case(fmt.Sprintf("%d/%s/%d/%s/%d/%s", n, a.name, d, short, to, op.name))
+	x.Case(fmt.Sprintf("%d/%s/%d/%d/%s/%d/%s", n, a.name, seed, d, short, to, op.name))
 
 	sr := runSession(ids, sessionStreams(seed, "A", "A", 0), true, f)
 	if sr.altered == 0 {
@@ -287,10 +296,12 @@ func faultBody(x *engine.X) {
 			}
 		}
 	}
-	// (4) all parties that complete agree: SessionID, transcript state, and the seed of every completing pair
+	// (4) all HONEST parties that complete agree: SessionID, transcript state, and the seed of every completing pair.
+	// The deviator's own context is only observed: it may hold a state that differs from what it sent, and nothing
+	// is promised to it.
 	ctxs := map[sharing.ID]*session.Context{}
 	var completers []sharing.ID
-	for _, id := range ids {
+	for _, id := range others {
 		if c := sr.parties[id].ctx; c != nil {
 			ctxs[id] = c
 			completers = append(completers, id)
@@ -298,7 +309,12 @@ func faultBody(x *engine.X) {
 	}
 	completers = sorted(completers)
 	if len(completers) >= 2 {
-		agree(x, "fault", what+" - among the parties that completed "+fmt.Sprint(completers), ctxs, completers)
+		agree(x, "fault", what+" - among the honest parties that completed "+fmt.Sprint(completers), ctxs, completers)
+	}
+	devView := "n/a"
+	if dc := sr.parties[d].ctx; dc != nil && len(completers) >= 1 {
+		h := ctxs[completers[0]]
+		devView = fmt.Sprint(dc.SessionID() == h.SessionID() && bytes.Equal(seed64(dc, completers[0]), seed64(h, d)))
 	}
 
 	// outcome by role (vacuity: rejected / completed / starved all have to occur)
@@ -320,5 +336,18 @@ func faultBody(x *engine.X) {
 		oc = append(oc, role(id, d, affected)+":"+o)
 	}
 	sort.Strings(oc)
-	x.Observe(n, class, short, op.group, oc)
+	x.Observe(n, class, short, op.group, oc, "deviator-agrees-with-honest", devView, "honest-completers", len(completers))
+	if !x.Replay {
+		// histogram for the evidence: (class, leaf, operator group) -> set of role outcomes, multiplicities dropped
+		var uniq []string
+		for i, o := range oc {
+			if i == 0 || oc[i-1] != o {
+				uniq = append(uniq, o)
+			}
+		}
+		hk := fmt.Sprintf("%s %s %s => %s", class, short, op.group, strings.Join(uniq, "; "))
+		histMu.Lock()
+		faultHist[hk]++
+		histMu.Unlock()
+	}
 }
